@@ -61,6 +61,11 @@ def main():
     if sys.argv[1] == "run":
         tier = sys.argv[3] if len(sys.argv) > 3 else "quick"
         res = run_one(sys.argv[2], tier)
+        rp = os.path.join(SEEDED, f"RESULTS.{tier}.json")
+        if res and os.path.exists(rp):
+            table = json.load(open(rp))
+            table[sys.argv[2]] = res
+            json.dump(table, open(rp, "w"), indent=1)
         return 0 if res and all(v["exit"] == 1 for v in res.values()) else 1
     if sys.argv[1] == "all":
         tier = sys.argv[2] if len(sys.argv) > 2 else "quick"
